@@ -24,8 +24,7 @@ const (
 	sigF2 = "F2-underscore-initial-name-relay"
 	sigF3 = "F3-newrelic-nonfinite-drops-batch"
 	sigF4 = "F4-influxdb-nonfinite-literal"
-	// suspected defects found by this check and not (yet) listed in known_findings.jsonl; their
-	// streams are generated only with VERIF_C17_SUSPECTS=1 (see notes/C17.md)
+	// defects found by this check and listed in known_findings.jsonl as known findings (DESIGN.md section 5)
 	sigF5 = "F5-influxdb-empty-tag-key-or-value"
 	sigF6 = "F6-newrelic-metrics-set-without-value"
 	sigF7 = "F7-newrelic-tag-overwrites-field"
@@ -455,7 +454,7 @@ func genInput(r *hlib.Rand, i int) input {
 	if stream == "event" {
 		return input{Stream: stream, Series: []Series{}, Backends: []BackendCfg{{Backend: "event"}}, Event: genEvent(r)}
 	}
-	if os.Getenv("VERIF_C17_SUSPECTS") != "" && i%12 == 2 {
+	if i%12 == 2 { // known findings F5-F7 (known_findings.jsonl)
 		stream = []string{"s5", "s6", "s7"}[(i/12)%3]
 	}
 	n := []int{0, 1, 2, 3, 5, 8, 12, 16, 25, 40}[r.Intn(10)]
